@@ -29,6 +29,7 @@
 namespace {
 
 std::string g_tmpdir;
+bool g_tmpdir_fixed = false;
 void ensure_tmpdir() {
     if (!g_tmpdir.empty()) return;
     const char* base = std::getenv("VERIF_TMP");
@@ -39,7 +40,7 @@ void ensure_tmpdir() {
     g_tmpdir = buf.data();
 }
 void cleanup_tmpdir() {
-    if (g_tmpdir.empty()) return;
+    if (g_tmpdir.empty() || g_tmpdir_fixed) return;
     std::string cmd = "rm -rf '" + g_tmpdir + "'";
     if (std::system(cmd.c_str())) {}
 }
@@ -60,6 +61,8 @@ std::string slurp_file(const std::string& path, bool& exists) {
     ss << f.rdbuf();
     return ss.str();
 }
+
+bool g_keep_files = false;
 
 struct Output {
     bool named;
@@ -86,7 +89,7 @@ struct Session {
             o.name = g_tmpdir + "/s" + std::to_string(line_no) + "_o" + std::to_string(serial++);
             name_out = o.name;
         } else {
-            int fd = memfd_create("out", 0);
+            int fd = memfd_create(("out" + std::to_string(serial++) + "_").c_str(), 0);
             o.keep_fd = dup(fd);
             fd_out = fd;
         }
@@ -110,10 +113,10 @@ struct Session {
                     bool ex2 = false;
                     std::string part = slurp_file(outs[i].name + suffix() + ".part", ex2);
                     out += ex2 ? " PART:" + (part.empty() ? std::string("-") : vh::to_hex(part)) : std::string(" MISSING");
-                    unlink((outs[i].name + suffix() + ".part").c_str());
+                    if (!g_keep_files) unlink((outs[i].name + suffix() + ".part").c_str());
                     continue;
                 }
-                unlink((outs[i].name + suffix()).c_str());
+                if (!g_keep_files) unlink((outs[i].name + suffix()).c_str());
             } else {
                 data = slurp_fd(outs[i].keep_fd);
                 close(outs[i].keep_fd);
@@ -281,6 +284,12 @@ std::string read_file(const std::string& kind, const std::string& data) {
 }
 
 }  // namespace
+
+std::string vh::exp_session(const std::string& line, int line_no, const std::string& fixed_dir, bool keep_files) {
+    if (!fixed_dir.empty()) { g_tmpdir = fixed_dir; g_tmpdir_fixed = true; }
+    g_keep_files = keep_files;
+    return run_session(line, line_no);
+}
 
 int vh::run_exp(int, char**) {
     std::atexit(cleanup_tmpdir);
